@@ -220,23 +220,129 @@ func next(in ssa.Instruction) []ssa.Instruction {
 // from is nil), reaches an instruction satisfying target, and passes no instruction satisfying
 // avoid (the target itself is not tested against avoid). It returns the witness path or nil.
 func PathAvoiding(f *ssa.Function, from ssa.Instruction, target, avoid func(ssa.Instruction) bool) []ssa.Instruction {
+	// A condition value that several branches of f test is remembered along the path: once a path has taken the
+	// true (false) edge of `if c`, a later `if c` on that path only continues on the same edge — until the path
+	// passes the instruction that computes c again (a new iteration). dec holds two bits per such condition.
+	// conditions are identified structurally: the same value, or the same comparison of the same two operands
+	// (x != nil written twice is two instructions but one condition)
+	condKey := func(c ssa.Value) string {
+		opnd := func(v ssa.Value) string {
+			if k, ok := v.(*ssa.Const); ok {
+				return "k:" + k.String()
+			}
+			return fmt.Sprintf("%p", v)
+		}
+		if bo, ok := c.(*ssa.BinOp); ok {
+			switch bo.Op {
+			case token.EQL, token.NEQ, token.LSS, token.LEQ, token.GTR, token.GEQ:
+				return bo.Op.String() + "(" + opnd(bo.X) + "," + opnd(bo.Y) + ")"
+			}
+		}
+		return opnd(c)
+	}
+	keyIdx := map[string]uint{}
+	clears := map[ssa.Value][]uint{} // executing this value again invalidates these conditions
+	{
+		uses := map[string]int{}
+		for _, b := range f.Blocks {
+			if len(b.Instrs) == 0 {
+				continue
+			}
+			if ifi, ok := b.Instrs[len(b.Instrs)-1].(*ssa.If); ok {
+				c, _ := Cond(ifi.Cond, true)
+				if _, isK := c.(*ssa.Const); !isK {
+					uses[condKey(c)]++
+				}
+			}
+		}
+		for _, b := range f.Blocks {
+			if len(b.Instrs) == 0 {
+				continue
+			}
+			if ifi, ok := b.Instrs[len(b.Instrs)-1].(*ssa.If); ok {
+				c, _ := Cond(ifi.Cond, true)
+				k := condKey(c)
+				if _, seen := keyIdx[k]; !seen && uses[k] >= 2 && len(keyIdx) < 30 {
+					i := uint(len(keyIdx))
+					keyIdx[k] = i
+					if bo, ok := c.(*ssa.BinOp); ok && k != fmt.Sprintf("%p", c) {
+						clears[bo.X] = append(clears[bo.X], i)
+						clears[bo.Y] = append(clears[bo.Y], i)
+					} else {
+						clears[c] = append(clears[c], i)
+					}
+				}
+			}
+		}
+	}
+	condIdx := func(c ssa.Value) (uint, bool) {
+		k, ok := keyIdx[condKey(c)]
+		return k, ok
+	}
+	setDec := func(dec uint64, c ssa.Value, val bool) uint64 {
+		k, ok := condIdx(c)
+		if !ok {
+			return dec
+		}
+		dec &^= 3 << (2 * k)
+		if val {
+			return dec | 1<<(2*k)
+		}
+		return dec | 2<<(2*k)
+	}
+	getDec := func(dec uint64, c ssa.Value) (known, val bool) {
+		k, ok := condIdx(c)
+		if !ok {
+			return false, false
+		}
+		switch (dec >> (2 * k)) & 3 {
+		case 1:
+			return true, true
+		case 2:
+			return true, false
+		}
+		return false, false
+	}
 	type pstate struct {
 		in   ssa.Instruction
 		pred *ssa.BasicBlock // set while inside a phi-test block entered from pred (jump threading)
+		dec  uint64
 	}
 	var start []pstate
 	if from == nil {
 		if len(f.Blocks) == 0 || len(f.Blocks[0].Instrs) == 0 {
 			return nil
 		}
-		start = []pstate{{f.Blocks[0].Instrs[0], nil}}
+		start = []pstate{{f.Blocks[0].Instrs[0], nil, 0}}
 	} else {
+		// what the branches dominating the starting point have established
+		var dec0 uint64
+		if len(keyIdx) > 0 {
+			for _, g := range Guards(from) {
+				c, neg := Cond(g.If.Cond, g.Taken)
+				if def, ok := c.(ssa.Instruction); ok && def.Block() == from.Block() && Index(def) > Index(from) {
+					continue
+				}
+				dec0 = setDec(dec0, c, !neg)
+			}
+		}
 		for _, n := range next(from) {
 			var pred *ssa.BasicBlock
 			if n.Block() != from.Block() && isTestBlock(n.Block()) {
 				pred = from.Block()
 			}
-			start = append(start, pstate{n, pred})
+			d := dec0
+			if n.Block() != from.Block() {
+				// leaving from's block through its branch: that decision counts too
+				if ifi, ok := from.(*ssa.If); ok {
+					c, neg := Cond(ifi.Cond, true)
+					taken := from.Block().Succs[0] == n.Block()
+					if from.Block().Succs[0] != from.Block().Succs[1] {
+						d = setDec(d, c, taken != neg)
+					}
+				}
+			}
+			start = append(start, pstate{n, pred, d})
 		}
 	}
 	prev := map[pstate]*pstate{}
@@ -262,24 +368,42 @@ func PathAvoiding(f *ssa.Function, from ssa.Instruction, target, avoid func(ssa.
 		if avoid != nil && avoid(in) {
 			continue
 		}
+		dec := st.dec
+		// the value is computed anew here: what an earlier branch found out about it no longer holds
+		if v, ok := in.(ssa.Value); ok {
+			for _, k := range clears[v] {
+				dec &^= 3 << (2 * k)
+			}
+		}
 		var succ []pstate
 		b := in.Block()
 		if i := Index(in); i+1 < len(b.Instrs) {
-			succ = []pstate{{b.Instrs[i+1], st.pred}}
+			succ = []pstate{{b.Instrs[i+1], st.pred, dec}}
 		} else {
 			targets := b.Succs
-			if ifi, ok := in.(*ssa.If); ok && st.pred != nil {
+			ifi, isIf := in.(*ssa.If)
+			if isIf && st.pred != nil {
 				targets = feasibleSuccs(ifi, st.pred)
 			}
 			for _, s := range targets {
 				if len(s.Instrs) == 0 {
 					continue
 				}
+				d := dec
+				if isIf && len(b.Succs) == 2 && b.Succs[0] != b.Succs[1] {
+					c, neg := Cond(ifi.Cond, true)
+					taken := s == b.Succs[0]
+					val := taken != neg
+					if known, kv := getDec(dec, c); known && kv != val {
+						continue // contradicts what this path already established
+					}
+					d = setDec(d, c, val)
+				}
 				var pred *ssa.BasicBlock
 				if isTestBlock(s) {
 					pred = b
 				}
-				succ = append(succ, pstate{s.Instrs[0], pred})
+				succ = append(succ, pstate{s.Instrs[0], pred, d})
 			}
 		}
 		for _, n := range succ {
